@@ -144,20 +144,6 @@ def instrument_body(cb, plugin, path, m):
                 setattr(k2, name, logged)
                 return
 
-def innermost(func):
-    """follow the `f` closure cells of commands.wrap / commands.thread down to the command body"""
-    seen = 0
-    while seen < 10:
-        seen += 1
-        fv = func.__code__.co_freevars
-        if 'f' in fv and func.__closure__:
-            inner = func.__closure__[fv.index('f')].cell_contents
-            if callable(inner) and hasattr(inner, '__code__'):
-                func = inner
-                continue
-        break
-    return func
-
 def spec_of(func):
     """run-time wrap spec of a command method, flattened like the extractor does"""
     f = func
@@ -311,7 +297,9 @@ def snapshot(b, light=False):
     s = {}
     s['users'] = sorted((id, _preserve(u), tuple(u.auth)) for id, u in ircdb.users.users.items())
     s['channels'] = sorted((n, p) for n, p in ((n, _preserve(c)) for n, c in ircdb.channels.channels.items()) if p != _FRESH_CHANNEL)
-    s['ignores'] = sorted(ircdb.ignores.hostmasks.items())
+    # lazily expired entries are canonicalised away (IgnoresDB.checkIgnored deletes them when it meets them)
+    nowt = time.time()
+    s['ignores'] = sorted((h, e) for h, e in ircdb.ignores.hostmasks.items() if not (e and nowt > e))
     s['networks'] = sorted(n for n, _ in ircdb.networks.items())
     s['registry'] = [(n, str(v)) for n, v in conf.supybot.getValues(getChildren=True, fullNames=True)]
     s['uregistry'] = [(n, str(v)) for n, v in conf.users.getValues(getChildren=True, fullNames=True)]
@@ -335,6 +323,8 @@ def snapshot(b, light=False):
     for root, dirs, fs in os.walk(b.dir):
         dirs[:] = [d for d in dirs if d not in ('logs', 'tmp')]
         for f in fs:
+            if f.startswith('Aka.') and f.endswith('.db'):
+                continue        # Aka opens a per-channel database file the first time a command is looked up in a channel
             p = os.path.join(root, f)
             files.append(os.path.relpath(p, b.dir))
     s['files'] = sorted(files)
